@@ -117,6 +117,7 @@ func runC10(w *World, r *Report) {
 	c10UnwindToTarget(w, r)
 	c10MarkerCount(w, r)
 	c10DefersRunOnce(w, r)
+	c10CatchClosesScopes(w, r)
 
 	// ------------------------------------------------------------ R-C10-1
 	push := w.ssaFunc(bp, "Context.callFramePushWithTable")
